@@ -64,6 +64,9 @@ var prefixes = []piece{
 	{name: "string holding tag delimiters", text: "<% let t = \"a %> b\n<% c\" %>\n"},
 	{name: "multi-line comment", text: "<%# a\nmulti-line\n\ncomment %>\n"},
 	{name: "comment with quote and opener", text: "<%# it's \"quoted\n<% ` %>\n"},
+	{name: "comment opener directly followed by a newline", text: "<%#\nbody starts on the next line\n%>\n"},
+	{name: "empty comments and comment opener followed by CRLF", text: "<%#%><%#\r\n\r\n%>\r\n<%##\n%>\n"},
+	{name: "tags whose code starts on the next line", text: "<%\nlet nl = 1\n%>\n<%=\nnl\n%>\n"},
 	{name: "line comment before code", text: "<% # line comment\n let c = 3 %>\n"},
 	{name: "line comment after code", text: "<% let d = 4 # trailing comment\n %>\n"},
 	{name: "CRLF text and tag", text: "text\r\nwith crlf\r\n<%= 2 %>\r\n"},
